@@ -39,7 +39,7 @@ namespace
 template <class T> std::string nm(char const *f) { return std::string(f) + "<" + tname<T>::v + ">"; }
 
 // binary functions: the first operand takes every value on 8 and 16 bit; the second every value on 8 bit, on 16 bit the
-// lattice (thorough: the lattice and every 64th value); the lattice for both on 32/64 bit
+// lattice (thorough: the lattice and every 16th value); the lattice for both on 32/64 bit
 template <class T> std::vector<T> first_domain() { return domain<T>(); }
 template <class T> std::vector<T> second_domain()
 {
@@ -52,7 +52,7 @@ template <class T> std::vector<T> second_domain()
     std::set<T> s;
     for (T v : lattice<T>())
       s.insert(v);
-    for (i128 v = lo<T>(); v <= hi<T>(); v += 64)
+    for (i128 v = lo<T>(); v <= hi<T>(); v += 16)
       s.insert(static_cast<T>(v));
     return std::vector<T>(s.begin(), s.end());
   }
@@ -478,10 +478,10 @@ int main(int argc, char **argv)
   });
   vrt::shard("binary_u8", [] { binary_unsigned<u8>(); });
   vrt::shard("binary_i8", [] { binary_signed<i8>(); });
-  for (unsigned p = 0; p < 8; ++p)
+  for (unsigned p = 0; p < 16; ++p)
   {
-    vrt::shard("binary_u16/" + std::to_string(p), [p] { binary_unsigned<u16>(p, 8); });
-    vrt::shard("binary_i16/" + std::to_string(p), [p] { binary_signed<i16>(p, 8); });
+    vrt::shard("binary_u16/" + std::to_string(p), [p] { binary_unsigned<u16>(p, 16); });
+    vrt::shard("binary_i16/" + std::to_string(p), [p] { binary_signed<i16>(p, 16); });
   }
   vrt::shard("binary_32_64", [] {
     binary_unsigned<u32>();
